@@ -73,7 +73,7 @@ type symExit struct {
 	path []*ssa.BasicBlock
 }
 
-func boolVal(b bool) sval { return sval{kind: 1, b: b} }
+func boolVal(b bool) sval    { return sval{kind: 1, b: b} }
 func nilVal(isNil bool) sval { return sval{kind: 2, b: isNil} }
 
 // evalBoolByPattern: v is a condition one of the scenario's patterns talks about.
